@@ -181,6 +181,21 @@ def validate(run, mode, path, conformance_path):
                 json.dumps([{k: v for k, v in e.items() if k not in ("facts", "srcs")} for e in tr[1][max(0, line - tr[0] - 8): line - tr[0] + 1]])[:3000]))
         return
     run.cov["traces_validated_against_impl"] += len(traces)
+    # which (source type, outcome) pairs this mode saw: every catalogue source must have been converted
+    seen = collections.OrderedDict()
+    for st, t in traces:
+        srcs = {x["c"]: x["src"] for x in t[0].get("srcs", [])}
+        for e in t:
+            if e.get("ev") == "Return" and e.get("c") in srcs:
+                sr = srcs[e["c"]]
+                k = "%s.%s" % (sr["comp"], sr["fam"])
+                out = e["res"] if e["res"] != "desc" else "%s.%s" % (e["desc"]["mtcomp"], e["desc"]["mtfam"])
+                seen.setdefault(k, set()).add(out)
+    missing = sorted({"%s.%s" % (c["comp"], c["fam"]) for c in CATALOGUE.values()} - set(seen))
+    log("[types] %-6s %s" % (mode, "  ".join("%s->%s" % (k, "/".join(sorted(v))) for k, v in sorted(seen.items()))))
+    run.cov["stages"].append({"stage": "source-types", "mode": mode, "outcomes": {k: sorted(v) for k, v in seen.items()}})
+    if missing and not os.environ.get("VERIF_C19_STAGES"):
+        run.inconclusive.append("%s: catalogue sources never converted in this run: %s" % (mode, missing))
     nontriv = [t for s, t in traces if any(e.get("ev") == "Return" and e.get("res") == "desc" for e in t)]
     run.cov["distinct_nontrivial"] += len({digest([{k: v for k, v in e.items() if k != "name"} for e in t]) for t in nontriv})
     run.add_samples([{"mode": mode, "events": [{k: v for k, v in e.items() if k != "facts"} for e in t[:14]]} for t in nontriv[:1]], limit=4)
